@@ -1166,3 +1166,6 @@ def run_case(r, obs):
     finally:
         from rv.props import _out_stubs
         _out_stubs.limit_repeats(obs, _REPORTED, MAX_PER_MECH)
+
+
+RULE += (' Added: Write against an existing file (9 sizes around 64 KiB x 8 relations of the new text to the existing content x 3 option sets x 3 incoming flags); MakeFilename contexts with empty existing names.')
